@@ -858,7 +858,7 @@ Proof. intros t w e H. unfold v_bad, v_ok in H. inversion H. Qed.
 Theorem judge_parse_sound : forall text o tag,
   judge_parse text o = v_ok tag -> exists p, o = RParse p /\ C09_obs_spec text p.
 Proof.
-  intros text o tag H. unfold judge_parse in H. destruct o as [p| |].
+  intros text o tag H. unfold judge_parse in H. destruct o as [p| | |].
   - assert (Hgen : (if obs_okb text p then v_ok (match po_tag p with TgOk => "tree"%string | _ => "report"%string end)
              else if obs_corb text p true && flags_matchb text p then
                if existsb is_zero (po_causes p) then
@@ -879,6 +879,8 @@ Proof.
     + exfalso. destruct (kf_ebnf text && po_same p); [exact (v_ok_not_kf _ _ H)|exact (v_ok_not_bad _ _ _ H)].
   - exfalso. destruct (kf_mika_close text); [exact (v_ok_not_kf _ _ H)|].
     destruct (kf_exp_nesting text); [exact (v_ok_not_kf _ _ H)|exact (v_ok_not_bad _ _ _ H)].
+  - exfalso. destruct (kf_mika_close text); [exact (v_ok_not_kf _ _ H)|].
+    destruct (kf_stack_run text); [exact (v_ok_not_kf _ _ H)|exact (v_ok_not_bad _ _ _ H)].
   - exfalso. exact (v_ok_not_bad _ _ _ H).
 Qed.
 
@@ -927,8 +929,9 @@ Qed.
 (* a known-finding verdict is given only inside its class and only for the predicted wrong behaviour *)
 Theorem judge_kf_narrow : forall text o id,
   judge_parse text o = v_kf id ->
-  (id = "mika-close-loop"%string /\ o = RHang /\ kf_mika_close text = true) \/
+  (id = "mika-close-loop"%string /\ (o = RHang \/ o = RAbort) /\ kf_mika_close text = true) \/
   (id = "exp-nesting"%string /\ o = RHang /\ kf_mika_close text = false /\ nest_threshold <= nest_depth text) \/
+  (id = "stack-overflow-prefix-run"%string /\ o = RAbort /\ kf_mika_close text = false /\ run_threshold <= max_prefix_run text) \/
   (id = "ebnf-todo-panic"%string /\ exists p, o = RParse p /\ po_tag p = TgPanic /\ po_same p = true /\ kf_ebnf text = true) \/
   (id = "fence-zero-range"%string /\ exists p, o = RParse p /\ po_tag p <> TgPanic /\ kf_fence_zero text = true /\
       existsb is_zero (po_causes p) = true /\ obs_corb text p true = true /\ flags_matchb text p = true) \/
@@ -936,7 +939,7 @@ Theorem judge_kf_narrow : forall text o id,
       (byte_lenZ text < Z.min (Z.of_nat (List.length (po_causes p))) 10)%Z /\
       C09_obs_spec text (PO (po_tag p) (po_same p) (po_causes p) (po_annots p) (po_nlines p) (po_lens p) (po_widths p) [] (po_hook p))).
 Proof.
-  intros text o id H. unfold judge_parse in H. destruct o as [p| |].
+  intros text o id H. unfold judge_parse in H. destruct o as [p| | |].
   - assert (Hgen : po_tag p <> TgPanic ->
              (if obs_okb text p then v_ok (match po_tag p with TgOk => "tree"%string | _ => "report"%string end)
              else if obs_corb text p true && flags_matchb text p then
@@ -972,16 +975,21 @@ Proof.
         + apply obs_corb_sound; [|reflexivity].
           unfold obs_corb in *. cbn [po_tag po_same po_causes po_annots po_nlines po_lens po_widths po_hook]. exact Hstrict. }
     destruct (po_tag p) eqn:Ht.
-    + destruct (Hgen ltac:(discriminate) H) as [G|G]; [right; right; right; left; exact G|right; right; right; right; exact G].
-    + destruct (Hgen ltac:(discriminate) H) as [G|G]; [right; right; right; left; exact G|right; right; right; right; exact G].
+    + destruct (Hgen ltac:(discriminate) H) as [G|G]; [right; right; right; right; left; exact G|right; right; right; right; right; exact G].
+    + destruct (Hgen ltac:(discriminate) H) as [G|G]; [right; right; right; right; left; exact G|right; right; right; right; right; exact G].
     + destruct (kf_ebnf text && po_same p) eqn:He; [|inversion H].
       rewrite andb_true_iff in He. destruct He as [E1 E2].
-      right. right. left. inversion H. split; [reflexivity|]. exists p. repeat split; assumption.
+      right. right. right. left. inversion H. split; [reflexivity|]. exists p. repeat split; assumption.
   - destruct (kf_mika_close text) eqn:Hm.
-    + left. inversion H. repeat split; reflexivity.
+    + left. inversion H. split; [reflexivity|]. split; [left; reflexivity|reflexivity].
     + destruct (kf_exp_nesting text) eqn:Hn; [|inversion H].
       right. left. inversion H. repeat split; try reflexivity.
       unfold kf_exp_nesting in Hn. apply Nat.leb_le in Hn. exact Hn.
+  - destruct (kf_mika_close text) eqn:Hm.
+    + left. inversion H. split; [reflexivity|]. split; [right; reflexivity|reflexivity].
+    + destruct (kf_stack_run text) eqn:Hn; [|inversion H].
+      right. right. left. inversion H. repeat split; try reflexivity.
+      unfold kf_stack_run in Hn. apply Nat.leb_le in Hn. exact Hn.
   - inversion H.
 Qed.
 
